@@ -1097,6 +1097,59 @@ func enduranceProp(c EnduranceCase, r *pbt.R) error {
 	return nil
 }
 
+// ---------------------------------------------------------------------------
+// bigtraverse: Traverse over thousands of keys with a consumer that is slow now and then
+
+// BigTravCase: N keys (a scattered insertion order), the callback pauses at the items whose positions are listed in Slow.
+type BigTravCase struct {
+	N    int   `json:"n"`
+	Slow []int `json:"slow"`
+	Desc bool  `json:"desc"`
+}
+
+func bigTravProp(c BigTravCase, r *pbt.R) error {
+	n := 1 + ((c.N-1)%20000+20000)%20000
+	less := func(a, b int) bool { return a < b }
+	if c.Desc {
+		less = func(a, b int) bool { return a > b }
+	}
+	t := bstree.New[int, int](less)
+	for i := 0; i < n; i++ {
+		k := (i * 7919) % n // a permutation of 0..n-1 when n and 7919 are coprime; repeats only overwrite
+		t.Upsert(k, 3*k+1)
+	}
+	present := t.Size()
+	slow := map[int]bool{}
+	for _, p := range c.Slow {
+		slow[((p%n)+n)%n] = true
+	}
+	pos, bad := 0, ""
+	prev := 0
+	t.Traverse(func(it bstree.Item[int, int]) {
+		if slow[pos] {
+			time.Sleep(300 * time.Microsecond)
+		}
+		if bad == "" {
+			if it.Val != 3*it.Key+1 {
+				bad = fmt.Sprintf("item %d is {%d %d}: not the value stored under that key", pos, it.Key, it.Val)
+			} else if pos > 0 && !less(prev, it.Key) {
+				bad = fmt.Sprintf("item %d has the key %d after the key %d: not in comparator order (or visited twice)", pos, it.Key, prev)
+			}
+		}
+		prev = it.Key
+		pos++
+	})
+	ctx := fmt.Sprintf("bstree of %d keys (descending comparator: %v), Traverse with a callback that pauses at the positions %v", present, c.Desc, c.Slow)
+	if bad != "" {
+		return fmt.Errorf("%s: %s", ctx, bad)
+	}
+	if pos != present {
+		return fmt.Errorf("%s: visited %d items, want %d", ctx, pos, present)
+	}
+	r.NonTrivialIf(present > 1024, "more than 1024 keys")
+	return nil
+}
+
 func TestProp(t *testing.T) {
 	// A Traverse hands every item from an internal goroutine to the caller; with
 	// 16 shard processes on the machine a small GOMAXPROCS avoids the cost of
@@ -1129,6 +1182,16 @@ func TestProp(t *testing.T) {
 				"(Whether an odd key is seen is up to the interleaving.) Non-trivial = every case.",
 			Gen: travGen, Prop: travProp, OutOfEnum: func(TravCase, bool) bool { return true },
 			RapidQuick: 8, RapidThorough: 100,
+		},
+		&pbt.Check[BigTravCase]{
+			Name: "bigtraverse",
+			Rule: "a tree of up to 20000 keys built in a scattered order; Traverse with a callback that pauses (300us) at chosen positions, so that whatever produces the items runs ahead of the consumer: every key once, with its value, in comparator order. Fixed: 1023, 1024, 1025, 3000 and 5000 keys pausing at the first item; random: sizes around 1024, 2048, 4096 and up to 20000 with 0..4 pauses. Non-trivial = more than 1024 keys.",
+			Gen: func(s pbt.Src, _ bool) BigTravCase {
+				return BigTravCase{N: pbt.Pick(s, 100, 1023, 1025, 2049, 4097, 9000, 20000), Slow: pbt.Seq(s, 0, 4, func(s pbt.Src) int { return pbt.Pick(s, 0, 1, 1023, 1024, 1025, 2048) }), Desc: pbt.Bool(s)}
+			},
+			Prop: bigTravProp, OutOfEnum: func(BigTravCase, bool) bool { return true },
+			Fixed:      []BigTravCase{{1023, []int{0}, false}, {1024, []int{0}, false}, {1025, []int{0}, false}, {3000, []int{0}, true}, {5000, []int{0, 1024}, false}},
+			RapidQuick: 4, RapidThorough: 60,
 		},
 		&pbt.Check[EnduranceCase]{
 			Name: "endurance",
